@@ -166,13 +166,17 @@ def real_process_runs(chk, prop, n):
             script = ("echo start > %s/s%d; head -c %d /dev/zero | tr '\\0' 'x'; head -c 1000 /dev/zero | tr '\\0' 'e' 1>&2; "
                       "sleep 0.15; echo end > %s/e%d") % (marks, k, big, marks, k)
             tids.append(await s.enqueue_task("t%d" % k, script, wd, None, []))
-        # a task that spawns a child and is cancelled; one that times out
+        # a task that spawns a child and is cancelled; one that times out.  The children wait for a GO file
+        # that is created only AFTER both tasks are final, so machine load cannot make a correctly killed
+        # child look like a survivor (a survivor sees GO and writes its marker).
         late_c = os.path.join(marks, "late_c")
         late_t = os.path.join(marks, "late_t")
-        c = await s.enqueue_task("c", "(sleep 0.8; echo late > %s) & wait" % late_c, wd, None, [])
-        t = await s.enqueue_task("k", "(sleep 0.8; echo late > %s) & wait" % late_t, wd, 0.3, [])
+        go = os.path.join(marks, "GO")
+        child = "(while [ ! -e %s ]; do sleep 0.05; done; echo late > %s) & wait"
+        c = await s.enqueue_task("c", child % (go, late_c), wd, None, [])
+        t = await s.enqueue_task("k", child % (go, late_t), wd, 0.3, [])
         max_over = 0
-        for _ in range(200):
+        for _ in range(3000):
             await asyncio.sleep(0.02)
             started = len([f for f in os.listdir(marks) if f.startswith("s")])
             ended = len([f for f in os.listdir(marks) if f.startswith("e")])
@@ -181,8 +185,12 @@ def real_process_runs(chk, prop, n):
                 await s.cancel_task(c)
             if all(s.task_states[x] not in (LocalStatus.SUBMITTED, LocalStatus.RUNNING) for x in s.task_states):
                 break
-        await s.wait_for(list(s.task_states), timeout=20)
-        await asyncio.sleep(1.3)
+        await s.wait_for(list(s.task_states), timeout=40)
+        open(go, "w").close()
+        for _ in range(30):
+            await asyncio.sleep(0.05)
+            if os.path.exists(late_c) or os.path.exists(late_t):
+                break
         res = {"states": {k: v.name for k, v in s.task_states.items()}, "max_overlap": max_over, "cores": cores,
                "late_cancel_child": os.path.exists(late_c), "late_timeout_child": os.path.exists(late_t), "logs": []}
         for k in range(cores + 2):
@@ -199,7 +207,7 @@ def real_process_runs(chk, prop, n):
         os.makedirs(os.path.join(wd, ".gwf", "logs"))
         cores = 1 + i % 2
         try:
-            res = asyncio.run(asyncio.wait_for(scenario(wd, cores, chk.seed * 100 + i), 60))
+            res = asyncio.run(asyncio.wait_for(scenario(wd, cores, chk.seed * 100 + i), 120))
         except Exception as exc:  # noqa
             res = {"error": repr(exc)}
         finally:
